@@ -12,6 +12,7 @@
 -/
 import MosVerif.Lemmas.GnetResp
 import MosVerif.Lemmas.Framing
+import MosVerif.Lemmas.GnetMulti
 import MosVerif.Generated.Facts
 namespace MosVerif.C13
 open MosVerif.Gnet
@@ -177,6 +178,57 @@ theorem segmentation_irrelevant (max : Nat) (segs : List Bytes)
   simp only [Framing.spec, Gnet.spec] at this ⊢
   rw [← expected_segs max false false segs]
   exact this
+
+/-! ## several connections on one gnet listener -/
+
+/-- ★ `admission_own_history`: for ALL interleavings of the events of any number of connections
+    (accepts, segments, peers going away with queries still at the upstream, replies coming back in any
+    order, also after the connection is gone) the state of connection `k` — its in-flight counter, hence
+    every admission decision (REFUSED iff ITS OWN in-flight ≥ max), its log and its writes — is a function of
+    `k`'s own events only: it equals the run of those events alone. (In the code: `OnOpen` allocates a fresh
+    `connCtx`, pinned; nothing of another connection can reach it.) -/
+theorem admission_own_history (dec : Bytes → Bool) (max : Nat) (ops : List GnetMulti.MOp) (k : Nat) :
+    GnetMulti.mrun dec max ops (fun _ => {}) k = GnetMulti.lrun dec max (GnetMulti.proj k ops) {} :=
+  GnetMulti.mrun_proj dec max ops _ k
+
+/-- corollary: events of other connections can be added, removed or reordered at will without changing
+    what connection `k` does. -/
+theorem other_connections_irrelevant (dec : Bytes → Bool) (max : Nat) (ops ops' : List GnetMulti.MOp) (k : Nat)
+    (h : GnetMulti.proj k ops = GnetMulti.proj k ops') :
+    GnetMulti.mrun dec max ops (fun _ => {}) k = GnetMulti.mrun dec max ops' (fun _ => {}) k := by
+  rw [admission_own_history, admission_own_history, h]
+
+/-- ★ every connection of a multi-connection history refines its own reference run (stream parser +
+    its own admission counter; replies after `OnClose` are never written), and the model meets the
+    executable specification that judges the implementation per connection. -/
+theorem multi_model_meets_spec (c : GnetMulti.MCase) (h : GnetMulti.caseOk c = true) :
+    GnetMulti.spec c (GnetMulti.modelObs c) = true := by
+  simp only [GnetMulti.spec, GnetMulti.modelObs, List.length_map, List.length_range, beq_self_eq_true,
+    Bool.true_and, List.all_eq_true, List.mem_range]
+  intro i hi
+  simp only [List.getElem?_map, List.getElem?_range hi, Option.map_some]
+  simp only [GnetMulti.caseOk, List.all_eq_true, List.mem_range] at h
+  have hk := h i hi
+  have hs := GnetMulti.msim_drain
+    (GnetMulti.msim_run decB c.max (GnetMulti.proj (i + 1) c.ops) {} {} GnetMulti.msim_init hk)
+  have : GnetMulti.cobsOf (GnetMulti.mdrain (GnetMulti.mrun decB c.max c.ops (fun _ => {}) (i + 1))) =
+      GnetMulti.expectedOf c (i + 1) := by
+    rw [GnetMulti.mrun_proj]
+    exact GnetMulti.cobs_of_msim hs
+  simp [GnetMulti.specConn, this]
+
+/-- the multi-connection specification is not vacuous: limit 1, connection 1 has one query at the upstream
+    and its peer goes away, connection 2 is accepted and gets one query in flight, connection 1's late reply
+    comes back, then connection 2's second query MUST be REFUSED (its own in-flight is still 1). -/
+example :
+    let q1 : Bytes := 0 :: 1 :: 1 :: List.replicate 14 0
+    let q2 : Bytes := 0 :: 2 :: 1 :: List.replicate 14 0
+    let q3 : Bytes := 0 :: 3 :: 1 :: List.replicate 14 0
+    let s := GnetMulti.mrun decB 1
+      [⟨1, .opn⟩, ⟨1, .seg (frame q1)⟩, ⟨1, .cls⟩, ⟨2, .opn⟩, ⟨2, .seg (frame q2)⟩, ⟨1, .rel 0⟩,
+       ⟨2, .seg (frame q3)⟩] (fun _ => {})
+    (s 2).c.log = [.query q2, .refused q3] ∧ (s 1).late = 1 ∧ (s 1).c.writes = [] := by
+  decide
 
 /-! ## the goroutine listener (tcp, DoT): blocking reader -/
 
@@ -410,7 +462,8 @@ theorem pins :
     Facts.gnetfr_errCond = "err != nil" ∧
     Facts.gnetfr_closeCount = 1 ∧
     Facts.gnetfr_ccrAdd = "ccr := cc.concurrentRequests.Add(1)" ∧
-    Facts.gnetfr_limitCond = "ccr > e.maxConcurrent" ∧
+    Facts.gnetfr_limitCond =
+      "ccr > e.maxConcurrent || e.r.limiterAllowN(cc.remoteAddr.Addr(), costTCPQuery) != nil" ∧
     Facts.gnetfr_refusedResp = "resp := mustHaveRespB(m, nil, dnsmsg.RCodeRefused, true, 0)" ∧
     Facts.gnetfr_write = "c.Write(resp)" ∧
     Facts.gnetfr_writeCount = 1 ∧
@@ -442,6 +495,12 @@ theorem pins :
     Facts.gnetfr_idleReset = "cc.idleTimer.Reset(e.idleTimeout)" ∧
     Facts.gnetfr_idleResetFirst = 2 ∧
     Facts.gnetfr_idleTimerArg = "e.idleTimeout" ∧
+    Facts.gnetfr_freshCtx =
+      "cc := &connCtx{ remoteAddr: netAddr2NetipAddr(c.RemoteAddr()), localAddr: netAddr2NetipAddr(c.LocalAddr()), }" ∧
+    Facts.gnetfr_setCtx = "c.SetContext(cc)" ∧
+    Facts.gnetfr_openPoolGets = 0 ∧
+    Facts.gnetfr_closePoolPuts = 0 ∧
+    Facts.gnetfr_closeCtx = "cc := c.Context().(*connCtx)" ∧
     Facts.tcpfr_hdrBuf = "hdrBuf := pool.GetBuf(2)" ∧
     Facts.tcpfr_readFullHdr = "nr, err := io.ReadFull(c, hdrBuf)" ∧
     Facts.tcpfr_length = "length := binary.BigEndian.Uint16(hdrBuf)" ∧
